@@ -159,6 +159,7 @@ func pathSearch(start *ssa.BasicBlock, idx int, q PathQuery) *Exit {
 		i       int
 		path    []*ssa.BasicBlock
 		known   map[ssa.Value]bool // branch conditions decided earlier on this path
+		assumed map[ssa.Value]bool // conditions the query assumes and that have not been computed on this path yet
 	}
 	type key struct {
 		b, pred *ssa.BasicBlock
@@ -176,12 +177,25 @@ func pathSearch(start *ssa.BasicBlock, idx int, q PathQuery) *Exit {
 		return strings.Join(xs, ",")
 	}
 	init := map[ssa.Value]bool{}
+	// what is known where the search starts: the conditions that dominate the start block, then the query's own
+	for _, f := range FactsAt(start) {
+		c, pol := normBool(f.Cond, f.Pol)
+		if _, isConst := c.(*ssa.Const); !isConst {
+			init[c] = pol
+		}
+	}
+	assumed := map[ssa.Value]bool{}
 	for _, f := range q.Known {
 		c, pol := normBool(f.Cond, f.Pol)
 		init[c] = pol
+		// an assumption about a condition computed at or after the start: it speaks of the first evaluation
+		// (one computed in the start block itself is evaluated by the first pass over that block, without entering it)
+		if in, ok := c.(ssa.Instruction); ok && in.Block() != nil && in.Block() != start && !in.Block().Dominates(start) {
+			assumed[c] = true
+		}
 	}
 	seen := map[key]bool{}
-	work := []item{{start, nil, idx, []*ssa.BasicBlock{start}, init}}
+	work := []item{{start, nil, idx, []*ssa.BasicBlock{start}, init, assumed}}
 	first := true
 	steps := 0
 	for len(work) > 0 {
@@ -277,8 +291,42 @@ func pathSearch(start *ssa.BasicBlock, idx int, q PathQuery) *Exit {
 					known[cond] = (s == it.b.Succs[0]) == condPol
 				}
 			}
+			// entering the block that computes a condition computes it anew (next round of a loop): what was
+			// known about the old value says nothing about the new one
+			stale := false
+			for k := range known {
+				if in, ok := k.(ssa.Instruction); ok && in.Block() == s {
+					stale = true
+				}
+			}
+			assume := it.assumed
+			if stale {
+				fresh := map[ssa.Value]bool{}
+				var left map[ssa.Value]bool
+				for k, v := range known {
+					if in, ok := k.(ssa.Instruction); ok && in.Block() == s {
+						if assume[k] {
+							// the first evaluation of an assumed condition: this is the one the assumption is about
+							if left == nil {
+								left = map[ssa.Value]bool{}
+								for a := range assume {
+									left[a] = true
+								}
+							}
+							delete(left, k)
+							fresh[k] = v
+						}
+						continue
+					}
+					fresh[k] = v
+				}
+				known = fresh
+				if left != nil {
+					assume = left
+				}
+			}
 			np := append(append([]*ssa.BasicBlock{}, it.path...), s)
-			work = append(work, item{s, it.b, 0, np, known})
+			work = append(work, item{s, it.b, 0, np, known, assume})
 		}
 	}
 	return nil
@@ -399,6 +447,17 @@ func decideOnEntry(b, pred *ssa.BasicBlock, known map[ssa.Value]bool) (bool, boo
 	in := func(v ssa.Value) (ssa.Value, bool) {
 		if ph, ok := v.(*ssa.Phi); ok && ph.Block() == b {
 			return ph.Edges[pi], true
+		}
+		// a local kept in memory (a named result a deferred literal reads) that was just assigned a phi of this
+		// block: rpc, err := helper() with err the named result
+		if u, ok := v.(*ssa.UnOp); ok && u.Op == token.MUL && u.Block() == b {
+			if a, ok := u.X.(*ssa.Alloc); ok {
+				if w := ReachingStore(u, a); w != nil {
+					if ph, ok := w.(*ssa.Phi); ok && ph.Block() == b {
+						return ph.Edges[pi], true
+					}
+				}
+			}
 		}
 		return v, false
 	}
@@ -587,6 +646,16 @@ func CanonCmp(cond ssa.Value, pol bool) (Cmp, bool) {
 				return r, true
 			}
 		}
+		// string(a) OP string(b) with a, b []byte: the byte-wise comparison bytes.Compare(a, b) OP 0 makes
+		if cx, ok := x.(*ssa.Convert); ok {
+			if cy, ok := y.(*ssa.Convert); ok && isByteSlice(cx.X.Type()) && isByteSlice(cy.X.Type()) {
+				r := Cmp{op, cx.X, cy.X, true}
+				if !pol {
+					r.Op = negate(r.Op)
+				}
+				return r, true
+			}
+		}
 		// a constant on the left ('0' <= id) goes to the right
 		if _, xc := x.(*ssa.Const); xc {
 			if _, yc := y.(*ssa.Const); !yc {
@@ -608,6 +677,15 @@ func CanonCmp(cond ssa.Value, pol bool) (Cmp, bool) {
 		}
 	}
 	return Cmp{}, false
+}
+
+func isByteSlice(t types.Type) bool {
+	sl, ok := t.Underlying().(*types.Slice)
+	if !ok {
+		return false
+	}
+	b, ok := sl.Elem().Underlying().(*types.Basic)
+	return ok && b.Kind() == types.Uint8
 }
 
 // LenOf returns x if v is len(x).
@@ -844,11 +922,41 @@ func invariantIn(v ssa.Value, at *ssa.BasicBlock) bool {
 			}
 		}
 		return true
+	case *ssa.UnOp:
+		// a field of an object that is itself fixed, when this function never assigns that field (len(row.Cells)
+		// re-read in the loop condition)
+		if x.Op == token.MUL {
+			if fa, ok := x.X.(*ssa.FieldAddr); ok && invariantIn(fa.X, at) {
+				fv := FieldVar(fa.X.Type(), fa.Field)
+				stored := false
+				for _, f := range WithAnon(outermost(x.Parent())) {
+					Instrs(f, func(in ssa.Instruction) {
+						if st, ok := in.(*ssa.Store); ok {
+							if sfa, ok := st.Addr.(*ssa.FieldAddr); ok && FieldVar(sfa.X.Type(), sfa.Field) == fv {
+								stored = true
+							}
+						}
+					})
+				}
+				if !stored {
+					return true
+				}
+			}
+		}
+		b := x.Block()
+		return b != at && b.Dominates(at)
 	case ssa.Instruction:
 		b := x.Block()
 		return b != at && b.Dominates(at)
 	}
 	return false
+}
+
+func outermost(fn *ssa.Function) *ssa.Function {
+	for fn.Parent() != nil {
+		fn = fn.Parent()
+	}
+	return fn
 }
 
 // boolConst returns the value of a boolean constant.
@@ -1199,13 +1307,52 @@ func SameCond(a, b ssa.Value) bool {
 	if a == b {
 		return true
 	}
-	la, ok1 := a.(*ssa.UnOp)
-	lb, ok2 := b.(*ssa.UnOp)
-	if !ok1 || !ok2 || la.Op != token.MUL || lb.Op != token.MUL || la.X != lb.X || la.Parent() != lb.Parent() {
+	// the same comparison of the same operands (res.Error != nil tested in a helper and again by its caller)
+	if ba, ok := a.(*ssa.BinOp); ok {
+		if bb, ok := b.(*ssa.BinOp); ok && ba.Op == bb.Op {
+			return sameOperand(ba.X, bb.X) && sameOperand(ba.Y, bb.Y)
+		}
 		return false
 	}
-	al, ok := la.X.(*ssa.Alloc)
-	if !ok {
+	return sameLoad(a, b)
+}
+
+func sameOperand(x, y ssa.Value) bool {
+	if x == y {
+		return true
+	}
+	if cx, ok := x.(*ssa.Const); ok {
+		if cy, ok := y.(*ssa.Const); ok {
+			return types.Identical(cx.Type(), cy.Type()) && (cx.Value == nil && cy.Value == nil || cx.Value != nil && cy.Value != nil && cx.Value.ExactString() == cy.Value.ExactString())
+		}
+		return false
+	}
+	return sameLoad(x, y)
+}
+
+// sameLoad: two loads of the same local variable, or of the same field of the same local struct, with nothing in
+// between that can write it.
+func sameLoad(a, b ssa.Value) bool {
+	la, ok1 := a.(*ssa.UnOp)
+	lb, ok2 := b.(*ssa.UnOp)
+	if !ok1 || !ok2 || la.Op != token.MUL || lb.Op != token.MUL || la.Parent() != lb.Parent() {
+		return false
+	}
+	var al *ssa.Alloc
+	field := -1
+	if la.X == lb.X {
+		al, _ = la.X.(*ssa.Alloc)
+	}
+	if al == nil {
+		fa, ok1 := la.X.(*ssa.FieldAddr)
+		fb, ok2 := lb.X.(*ssa.FieldAddr)
+		if !ok1 || !ok2 || fa.Field != fb.Field || fa.X != fb.X {
+			return false
+		}
+		al, _ = fa.X.(*ssa.Alloc)
+		field = fa.Field
+	}
+	if al == nil {
 		return false
 	}
 	first, second := ssa.Instruction(la), ssa.Instruction(lb)
@@ -1234,6 +1381,9 @@ func SameCond(a, b ssa.Value) bool {
 		switch x := in.(type) {
 		case *ssa.Store:
 			writes = x.Addr == ssa.Value(al)
+			if sfa, ok := x.Addr.(*ssa.FieldAddr); ok && sfa.X == ssa.Value(al) && (field < 0 || sfa.Field == field) {
+				writes = true
+			}
 		case ssa.CallInstruction:
 			cc := x.Common()
 			if capt[cc.Value] {
@@ -1241,6 +1391,9 @@ func SameCond(a, b ssa.Value) bool {
 			}
 			for _, arg := range cc.Args {
 				if arg == ssa.Value(al) || capt[arg] {
+					writes = true
+				}
+				if afa, ok := arg.(*ssa.FieldAddr); ok && afa.X == ssa.Value(al) {
 					writes = true
 				}
 			}
@@ -1340,8 +1493,26 @@ func FindCycleSensitive(fn *ssa.Function, removedBlock func(*ssa.BasicBlock) boo
 			}
 			first := h.Instrs[0]
 			e := pathSearch(s, 0, PathQuery{
-				Known:    EdgeFacts(h, s),
-				Target:   func(in ssa.Instruction) bool { return in == first },
+				Known: EdgeFacts(h, s),
+				TargetPath: func(in ssa.Instruction, path []*ssa.BasicBlock) bool {
+					if in != first {
+						return false
+					}
+					// a cycle must be repeatable: coming back into the header over this edge, the header's own
+					// branch (if the edge decides it: a "first round" flag that the back edge sets) must lead to s again
+					if len(path) >= 2 && len(h.Succs) == 2 {
+						if v, decided := DecideOnEntry(h, path[len(path)-2]); decided {
+							next := h.Succs[1]
+							if v {
+								next = h.Succs[0]
+							}
+							if next != s {
+								return false
+							}
+						}
+					}
+					return true
+				},
 				SkipEdge: func(from, to *ssa.BasicBlock) bool {
 					return (removedEdge != nil && removedEdge(from, to)) || (removedBlock != nil && removedBlock(to) && to != h)
 				},
